@@ -15,7 +15,6 @@ use std::io::{self, BufReader, Read, Write};
 use x25519_dalek::{PublicKey, StaticSecret};
 
 const FILES: usize = 4;
-const RUNS: usize = 16;
 
 #[derive(Clone, Debug, Serialize, Deserialize)]
 pub struct Case {
@@ -27,7 +26,7 @@ pub struct Case {
     pub data: String,
     /// sizes in MiB, increasing
     pub sizes_mib: Vec<u64>,
-    /// interleaved (4 files x 16 runs) | oneblock (one file added in a single piece, as `mlar create` does)
+    /// interleaved (4 files, runs of 256 KiB in turn) | twoopen (everything in one append while another file is open) | oneblock (one file added in a single piece, as `mlar create` does)
     #[serde(default)]
     pub shape: String,
     /// extraction: all | subset (only one of the files is exported, the others are skipped)
@@ -112,8 +111,11 @@ fn write_archive<W: Write>(dest: W, layers: u8, level: u32, constant: bool, tota
     for f in 0..FILES {
         ids.push(w.start_file(&format!("file{f}")).map_err(|e| e.to_string())?);
     }
-    let per_run = total / (FILES * RUNS) as u64;
-    for r in 0..RUNS {
+    // runs of a fixed size, their number growing with the total: what brotli keeps depends on how much one
+    // append hands over (up to a 4 MiB block), which must not be mistaken for growth with the bytes streamed
+    let per_run = (256u64 << 10).min(total / FILES as u64).max(1);
+    let runs = (total / (FILES as u64 * per_run)).max(1) as usize;
+    for r in 0..runs {
         for (f, id) in ids.iter().enumerate() {
             let src = Gen { left: per_run, rng: Rng::new((r * FILES + f) as u64), constant };
             w.append_file_content(*id, per_run, src).map_err(|e| e.to_string())?;
